@@ -8,7 +8,7 @@ TERMS = {'A': '"a"', 'B': '"b"', 'C': '"c"', '_U': '"u"'}
 def gen_item(rng, names, depth=0, templates=()):
     r = rng.random()
     if r < 0.30: return rng.choice(list(TERMS))
-    if r < 0.45: return rng.choice(['"x"', '"y"', '/z/'])
+    if r < 0.45: return rng.choice(['"x"', '"y"', '/z/', '"x"', '"a"', '"b"'])     # "a"/"b": anonymous (filtered) uses of a terminal that is also used by name (kept)
     if r < 0.68 or depth > 1: return rng.choice(names)
     if templates and r < 0.73: return '%s{%s}' % (rng.choice(templates), rng.choice(list(TERMS) + names[1:]))
     if r < 0.82: return '(' + gen_alts(rng, names, depth + 1) + ')'
